@@ -28,6 +28,7 @@ ListE(xs) == [e |-> "list", xs |-> xs]
 FuncE(ps, body) == [e |-> "func", ps |-> ps, body |-> body]
 LetS(n, x) == [s |-> "let", nm |-> n, x |-> x]
 n_t == << "t" >>  n_u == << "u" >>  n_l == << "l" >>  n_m == << "m" >>  n_s == << "s" >>  n_p == << "p" >>
+n_k1 == << "k", "o" >>  n_kn == << "k", "n" >>  n_k3 == << "k", "t" >>  n_c1 == << "c", "o" >>  n_cs == << "c", "s" >>  n_kb == << "k", "b" >>
 n_inc == << "i", "n", "c" >>  n_add == << "a", "d", "d" >>  n_kv == << "k", "v" >>  n_red == << "r", "e", "d" >>
 n_lb == << "l", "b" >>  n_tb == << "t", "b" >>
 n_nn == << "n", "n" >>  n_nz == << "n", "z" >>
@@ -94,6 +95,19 @@ Cons1 == << ConE(<< RangeA(<< L(IntV(0)) >>, << L(IntV(2)) >>) >>),             
             S(n_a), S(n_b) >>                                                             \* a name: an example, or a named constraint
 LitsCon == << IntV(0), IntV(1), IntV(3), StrV(<< "a" >>), BoolV(FALSE) >>
 FamCon == {"lit", "var", "let", "conlet", "constmt", "badlet"}
+
+(* callbacks whose answers map / filter cannot use: a pair of one item, a pair whose first item is not a *)
+(* string, a number for a character, a non-boolean for filter                                           *)
+PreFopBad == << LetS(n_l, ListE(<< L(IntV(1)), L(IntV(2)) >>)),
+                LetS(n_t, TupE(<< F(n_a, L(IntV(1))), F(n_b, L(IntV(2))) >>)),
+                LetS(n_s, L(StrV(<< "a", "b" >>))),
+                LetS(n_kv, FuncE(<< n_k, n_v >>, ListE(<< Bin("add", S(n_k), L(StrV(<< "z" >>))), S(n_v) >>))),
+                LetS(n_k1, FuncE(<< n_k, n_v >>, ListE(<< S(n_k) >>))),
+                LetS(n_kn, FuncE(<< n_k, n_v >>, ListE(<< S(n_v), S(n_k) >>))),
+                LetS(n_k3, FuncE(<< n_k, n_v >>, ListE(<< S(n_k), S(n_v), S(n_v) >>))),
+                LetS(n_c1, FuncE(<< n_x >>, L(IntV(1)))),
+                LetS(n_cs, FuncE(<< n_x >>, L(StrV(<< "q" >>)))),
+                LetS(n_kb, FuncE(<< n_k, n_v >>, S(n_v))) >>
 
 (* ---- literal pools ---- *)
 LitsSmall == << IntV(0), IntV(1), IntV(2), BoolV(TRUE), BoolV(FALSE), StrV(<< "a" >>), Null >>
